@@ -1,4 +1,4 @@
-from numpy import array, ndarray, diagonal, diag, dot, eye, log, zeros
+from numpy import array, asarray, ndarray, diagonal, diag, dot, eye, log, zeros
 from numpy.linalg import cholesky
 from scipy.linalg import solve, solve_triangular
 from scipy.optimize import minimize
@@ -149,6 +149,8 @@ class GpLinearInverter:
         :return: \
             The posterior mean and covariance.
         """
+        # (as floats: the kernels would evaluate exp(theta) in single precision for a float32 array)
+        theta = asarray(theta, dtype=float)
         K = self.cov.build_covariance(theta[self.cov_slice])
         prior_mean = self.mean.build_mean(theta[self.mean_slice])
         if self.A.shape[0] <= self.A.shape[1]:
@@ -177,6 +179,7 @@ class GpLinearInverter:
         :return: \
             The posterior mean and covariance.
         """
+        theta = asarray(theta, dtype=float)
         K = self.cov.build_covariance(theta[self.cov_slice])
         prior_mean = self.mean.build_mean(theta[self.mean_slice])
         if self.A.shape[0] <= self.A.shape[1]:
@@ -198,6 +201,7 @@ class GpLinearInverter:
         :return: \
             The log-marginal likelihood value.
         """
+        theta = asarray(theta, dtype=float)
         K = self.cov.build_covariance(theta[self.cov_slice])
         prior_mean = self.mean.build_mean(theta[self.mean_slice])
         L = cholesky(self.A @ K @ self.A.T + self.sigma)
@@ -209,6 +213,7 @@ class GpLinearInverter:
         returns the log-marginal likelihood and its gradient with respect
         to the hyperparameters.
         """
+        theta = asarray(theta, dtype=float)
         K, grad_K = self.cov.covariance_and_gradients(theta[self.cov_slice])
         J = self.A @ K @ self.A.T + self.sigma
         grad_J = [self.A @ dK @ self.A.T for dK in grad_K]
